@@ -136,7 +136,8 @@ def call(st, op, thunk, info):
 
 def _df_equal(a, b):
     try:
-        return a.equals(b) and list(a.columns) == list(b.columns) and a.index.equals(b.index)
+        return (a.equals(b) and list(a.columns) == list(b.columns) and a.index.equals(b.index)
+                and list(a.dtypes) == list(b.dtypes) and list(a.index.names) == list(b.index.names))
     except Exception:  # noqa
         return False
 
@@ -480,6 +481,24 @@ def op_df(st, op, info):
         df = df.copy()
         df.loc[df.index[op.get("row", 0) % len(df)], "value"] = np.nan
         st.fault("df_value_blanked")
+    sty = op.get("style") or {}
+    if sty.get("wide") is not None and len(dims) >= 2 and not dmg:
+        try:
+            df = x.to_df(index=False, dim_to_columns=dims[sty["wide"] % len(dims)].name)
+        except Exception:  # noqa
+            pass
+    if sty.get("letters"):
+        df = df.rename(columns={d.name: d.letter for d in dims})
+    if sty.get("omit_single"):
+        drop = [c for d in dims if len(d.items) == 1 for c in (d.name, d.letter) if c in df.columns]
+        if drop and len(drop) < len(dims):
+            df = df.drop(columns=drop)
+    if sty.get("intvals") and "value" in df.columns and bool(np.all(np.isfinite(df["value"]))) and bool(np.all(df["value"] == np.round(df["value"]))):
+        df = df.astype({"value": "int64"})
+    if sty.get("index") and not sty.get("letters") and sty.get("wide") is None:
+        keep = [c for c in df.columns if c != "value"]
+        if keep:
+            df = df.set_index(keep)
     if op.get("shuffle"):
         order = list(np.random.RandomState(op.get("vseed", 0) % 2 ** 31).permutation(len(df)))
         df = df.iloc[order].reset_index(drop=True)
